@@ -414,6 +414,32 @@ func c11CheckB2B(c c11B2BCase) engine.Result {
 	for i := range long {
 		long[i] = byte(0x61 + i%23)
 	}
+	if class == c11NoOptional {
+		// ids without the optional header: data of every kind of content directly behind PES_packet_length
+		// (padding bytes, bytes with the top bits set, zeros, a count), bounded and unbounded packets
+		engine.Guard(&res, "NewPESHeader", func() {
+			p := ref.PES{StreamID: id}
+			for _, fill := range [...]byte{0xFF, 0x90, 0x00, 0x01} {
+				for _, n := range [...]int{1, 2, 3, 4, 5, 40, 200} {
+					for _, pl := range [...]int{n, 0, 0xFFFF, n + 50} {
+						in := []byte{0x00, 0x00, 0x01, id, byte(pl >> 8), byte(pl)}
+						for i := 0; i < n; i++ {
+							b := fill
+							if fill == 0x01 {
+								b = byte(i)
+							}
+							in = append(in, b)
+						}
+						res.Nontrivial++
+						c11Judge(&res, in, class, id, &p, 6)
+						if len(res.Fail) > 8 {
+							return
+						}
+					}
+				}
+			}
+		})
+	}
 	engine.Guard(&res, "NewPESHeader", func() {
 		p := ref.PES{StreamID: id}
 		c11SetFlags6(&p, 0x04)
@@ -780,7 +806,7 @@ func init() {
 			},
 			&engine.Enum[c11B2BCase]{
 				Name: "back-to-back",
-				Rule: "case = stream_id (all 256); a PES packet whose PES_packet_length is consistent with its own end (PTS_DTS_flags {00,10,11} x optional fields {none, all} x stuffing {0,2} x payload {0,1,3,5,200,300} bytes) followed in the same buffer by another complete PES packet / a bare start code 00 00 01 / 00 00 01 E0 / a start code one byte later: the data is everything that follows the header up to the end of the buffer; all observables as in header-shapes",
+				Rule: "case = stream_id (all 256); a PES packet whose PES_packet_length is consistent with its own end (PTS_DTS_flags {00,10,11} x optional fields {none, all} x stuffing {0,2} x payload {0,1,3,5,200,300} bytes) followed in the same buffer by another complete PES packet / a bare start code 00 00 01 / 00 00 01 E0 / a start code one byte later: the data is everything that follows the header up to the end of the buffer; for the ids without optional header additionally data of four kinds of content (0xFF padding, 0x90.., zeros, a count) x 7 lengths x PES_packet_length {consistent, 0, 0xFFFF, larger}; all observables as in header-shapes",
 				Gen: func(r *engine.Run, emit func(c11B2BCase)) {
 					for id := 0; id < 256; id++ {
 						emit(c11B2BCase{id})
